@@ -600,13 +600,15 @@ class PositionArray(PosBase):
         values. Attributes will be copied from the other position.
         """
         attrs = {a: getattr(other, a, None) for a in cls._attributes()}
-        return _SYSTEMS[cls.cls_name][other.system](val, **attrs)
+        return _SYSTEMS[cls.cls_name][other.system](val, ellipsoid=other.ellipsoid, **attrs)
 
     @classmethod
     def empty_from(cls, other: "PositionArray") -> "PositionArray":
         """Create a new position delta of the same type as other but with NaN values
         """
-        return _SYSTEMS[cls.cls_name][other.system](np.full(other.shape, fill_value=np.nan), ellipsoid=ellipsoid)
+        return _SYSTEMS[cls.cls_name][other.system](
+            np.full(other.shape, fill_value=np.nan), ellipsoid=other.ellipsoid
+        )
 
     @classmethod
     def convert_to(cls, pos: "PositionArray", converter: Callable) -> "PositionArray":
@@ -615,7 +617,7 @@ class PositionArray(PosBase):
         Applies the converter function that is provides and copies all registered attributes to the new position 
         """
         attrs = {a: getattr(pos, a, None) for a in cls._attributes()}
-        return _SYSTEMS[cls.cls_name][cls.system](converter(pos), **attrs)
+        return _SYSTEMS[cls.cls_name][cls.system](converter(pos), ellipsoid=pos.ellipsoid, **attrs)
 
     def subset(self, idx, memo):
         """Create a subset """
@@ -638,7 +640,7 @@ class PositionArray(PosBase):
                 pos_args[attr_name] = attr.subset(idx, memo)
                 memo[old_id_attr] = pos_args[attr_name]
 
-        new_pos = _SYSTEMS[self.cls_name][self.system](val, **pos_args)
+        new_pos = _SYSTEMS[self.cls_name][self.system](val, ellipsoid=self.ellipsoid, **pos_args)
         memo[old_id] = new_pos
         return new_pos
 
@@ -873,7 +875,9 @@ class PositionArray(PosBase):
         Makes sure references to other objects are updated correctly
         """
         attrs = {a: copy.deepcopy(getattr(self, a, None), memo) for a in self._attributes()}
-        new_pos = PositionArray.create(val=np.asarray(self).copy(), system=self.system, **attrs)
+        new_pos = PositionArray.create(
+            val=np.asarray(self).copy(), system=self.system, ellipsoid=self.ellipsoid, **attrs
+        )
         memo[id(self)] = new_pos
         return new_pos
 
@@ -1479,7 +1483,7 @@ class PosVelArray(PositionArray):
         values. Attributes will be copied from the other position.
         """
         attrs = {a: getattr(other, a, None) for a in cls._attributes()}
-        return _SYSTEMS["PosVelArray"][other.system](val, **attrs)
+        return _SYSTEMS["PosVelArray"][other.system](val, ellipsoid=other.ellipsoid, **attrs)
 
     @classmethod
     def convert_to(cls, pos: "PosVelArray", converter: Callable) -> "PosVelArray":
@@ -1488,7 +1492,7 @@ class PosVelArray(PositionArray):
         Applies the converter function that is provides and copies all registered attributes to the new position 
         """
         attrs = {a: getattr(pos, a, None) for a in cls._attributes()}
-        return _SYSTEMS["PosVelArray"][cls.system](converter(pos), **attrs)
+        return _SYSTEMS["PosVelArray"][cls.system](converter(pos), ellipsoid=pos.ellipsoid, **attrs)
 
     @property
     def pos(self):
@@ -1498,7 +1502,7 @@ class PosVelArray(PositionArray):
                 val = self.val[0:3]
             else:
                 val = self.val[:, 0:3]
-            self._cache["pos"] = _SYSTEMS["PositionArray"][self.system](val, **attrs)
+            self._cache["pos"] = _SYSTEMS["PositionArray"][self.system](val, ellipsoid=self.ellipsoid, **attrs)
         return self._cache["pos"]
 
     @property
@@ -1611,7 +1615,7 @@ class PosVelArray(PositionArray):
         Makes sure references to other objects are updated correctly
         """
         attrs = {a: copy.deepcopy(getattr(self, a, None), memo) for a in self._attributes()}
-        new_pos = PosVelArray.create(val=np.asarray(self).copy(), system=self.system, **attrs)
+        new_pos = PosVelArray.create(val=np.asarray(self).copy(), system=self.system, ellipsoid=self.ellipsoid, **attrs)
         memo[id(self)] = new_pos
         return new_pos
 
